@@ -5,12 +5,40 @@ FAMILIES = ['plain', 'kill', 'fatal', 'timeout', 'shutdown', 'killshutdown', 're
 PER_FAMILY = (150, 4000)
 
 
-PROOF = S.pool_proof('C01', ['C01_manager_never_leaves_a_future_unresolved', 'C01_nothing_is_accepted_afterwards', 'C01_every_future_is_accounted_for', 'C01_exits_never_join_a_live_worker', 'C01_no_wake_up_is_lost', 'C01_failing_the_table_never_kills_the_manager', 'C01_no_circular_wait', 'C01_lock_order_refuted_with_callbacks_on_a_reusable_executor'],
-                    'liveness itself (every future resolves in finite time) is not a theorem: the hangs of the real code that involve locks kept by dead processes (H2, H4, H5, H7) are outside the models and are searched for by the simulation; proved: the safety core and the absence of circular waits among live threads (lock order read off the source; H15 is the excluded edge)', extra_gen=['LockOrder'])
+PROOF = S.pool_proof('C01', ['C01_manager_never_leaves_a_future_unresolved', 'C01_nothing_is_accepted_afterwards', 'C01_every_future_is_accounted_for', 'C01_exits_never_join_a_live_worker', 'C01_no_wake_up_is_lost', 'C01_failing_the_table_never_kills_the_manager', 'C01_no_circular_wait', 'C01_lock_order_refuted_with_callbacks_on_a_reusable_executor', 'C01_no_deadlock_on_the_wakeup_pipe'],
+                    'liveness itself (every future resolves in finite time) is not a theorem: the hangs of the real code that involve locks kept by dead processes (H2, H4, H5, H7) are outside the models and are searched for by the simulation; proved: the safety core and the absence of circular waits among live threads (lock order read off the source; H15 is the excluded edge)', extra_gen=['LockOrder', 'Detect'])
+
+
+def wakeup_pipe_scenario(ctx):
+    """the real executor with its manager thread kept busy by one slow done-callback while the wake-up pipe would fill up (16384
+    submissions), then shutdown(): it must return (finding H18)"""
+    import os, sys
+    import vlib
+    sys.path.insert(0, os.path.join(vlib.VERIF, "corr", "real"))
+    import runner
+    code = open(os.path.join(vlib.VERIF, "findings", "H18_real.py")).read()
+    res = runner.run_script(code, vlib.REPO, timeout=240)
+    got = None
+    for line in reversed(res["stdout"].splitlines()):
+        if line.startswith("{"):
+            try:
+                got = eval(line, {"__builtins__": {}}, {"True": True, "False": False, "None": None})
+            except Exception:  # noqa
+                got = None
+            break
+    return got, res
 
 
 def run(ctx):
-    return S.sim_check(ctx, FAMILIES, FAMILIES, PER_FAMILY, S.SIM_ASSUME, proof=PROOF)
+    import vlib
+    got, res = wakeup_pipe_scenario(ctx)
+    if got is None or not got.get("shutdown_returned"):
+        rp = vlib.write_replay(ctx, "wakepipe", {"kind": "shutdown() wedged behind a full wake-up pipe (or the scenario did not complete)", "observed": got,
+                                                 "history": "manager busy in one done-callback; 16384 submit(); shutdown(wait=False); the callback returns",
+                                                 "stdout_tail": res["stdout"][-1500:], "how_to_replay": "PYTHONPATH=/repo /venv/bin/python findings/H18_real.py"})
+        ctx.violations.append(("real executor: shutdown() still blocked 20 s after 16384 wake-ups piled up while the manager was busy: "
+                               + str(got)[:120], rp, False))
+    return S.sim_check(ctx, FAMILIES, FAMILIES, PER_FAMILY, S.SIM_ASSUME, proof=PROOF, extra_cov={"wakeup_pipe_scenario": got})
 
 
 def replay(ctx, path):
